@@ -546,10 +546,304 @@ def _fragment(text):
         return text
 
 
+# ======================================================================================================================
+# Normal form of the MODULE: a definition that cannot be read from the source as written is read again (same reader, same
+# reference text) from the module in which the calls of helpers that did not exist when the readers were written
+# (tools/known_functions.json) are undone. Every step is an equivalence; what is not understood stays as written.
+#   1. _inline_rebinding   `T = h(a, ..)` / `h(a, ..)` in the top-level body of a function, h a new helper that RE-BINDS parameters
+#                          (py2v.Inliner refuses those): inlined with the parameter standing for the caller's variable when that
+#                          variable is dead after the call (or is T itself); a helper local that is returned into a T of the same
+#                          name keeps its name
+#   2. py2v.normal_form    all the other calls of new helpers
+#   3. _sink_shared_head   `t = E; S; if t: A else: B` (t used once) -> `if E: S; A else: S; B`
+#   4. _unhoist            a new module-level function that a function passes around (not calls) and that reads nothing bound in
+#                          that function: defined locally again (first statement of the with-block / body that holds all the uses)
+# ======================================================================================================================
+_NO_INLINE = (ast.FunctionDef, ast.AsyncFunctionDef, ast.ClassDef, ast.Lambda, ast.Global, ast.Nonlocal, ast.Yield, ast.YieldFrom,
+              ast.Await, ast.Import, ast.ImportFrom, ast.Delete, ast.ListComp, ast.SetComp, ast.DictComp, ast.GeneratorExp,
+              ast.NamedExpr, ast.Return)
+
+
+def _stored_names(stmts):
+    out = set()
+    for s in stmts:
+        for n in ast.walk(s):
+            if isinstance(n, ast.Name) and not isinstance(n.ctx, ast.Load):
+                out.add(n.id)
+            elif isinstance(n, ast.ExceptHandler) and n.name:
+                out.add(n.name)
+    return out
+
+
+def _all_params(f):
+    a = f.args
+    return {x.arg for x in a.posonlyargs + a.args + a.kwonlyargs + [y for y in (a.vararg, a.kwarg) if y is not None]}
+
+
+def _no_doc(body):
+    return [x for x in body if not (isinstance(x, ast.Expr) and isinstance(x.value, ast.Constant))]
+
+
+class _Rename(ast.NodeTransformer):
+    """names: name -> name (every context); exprs: name -> expression (reads only)"""
+
+    def __init__(self, names, exprs):
+        self.names, self.exprs = names, exprs
+
+    def visit_Name(self, node):
+        if node.id in self.names:
+            return ast.copy_location(ast.Name(id=self.names[node.id], ctx=node.ctx), node)
+        if node.id in self.exprs and isinstance(node.ctx, ast.Load):
+            return copy.deepcopy(self.exprs[node.id])
+        return node
+
+    def visit_ExceptHandler(self, node):
+        node = self.generic_visit(node)
+        if node.name in self.names:
+            node.name = self.names[node.name]
+        return node
+
+
+def _assigned_first(body, name):
+    """the first top-level statement of body that mentions name is `name = <expression without name>`"""
+    for s in body:
+        if _mentions(s, name):
+            if isinstance(s, ast.AnnAssign) and s.value is not None:
+                tg = [s.target]
+            elif isinstance(s, ast.Assign):
+                tg = s.targets
+            else:
+                return False
+            return len(tg) == 1 and isinstance(tg[0], ast.Name) and tg[0].id == name and not _mentions(s.value, name)
+    return False
+
+
+def _rebinding_body(mod, cls, f, i, target, call):
+    fn, args = call.func, list(call.args)
+    if call.keywords or any(isinstance(a, ast.Starred) for a in args):
+        return None
+    caller_params = _all_params(f)
+    caller_bound = caller_params | _stored_names(f.body)
+    if isinstance(fn, ast.Attribute) and isinstance(fn.value, ast.Name) and fn.value.id == "self" and cls is not None \
+            and f.args.args and f.args.args[0].arg == "self" and "self" not in _stored_names(f.body) \
+            and not any(ast.unparse(d) in ("staticmethod", "classmethod") for d in f.decorator_list):
+        name, where, args = fn.attr, cls, [fn.value] + args
+    elif isinstance(fn, ast.Name) and fn.id not in caller_bound:
+        name, where = fn.id, mod
+    else:
+        return None
+    if name in py2v.KNOWN_FUNCTIONS:
+        return None
+    hs = [n for n in where.body if isinstance(n, (ast.FunctionDef, ast.AsyncFunctionDef, ast.ClassDef)) and n.name == name]
+    if len(hs) != 1 or not isinstance(hs[0], ast.FunctionDef) or hs[0].decorator_list or hs[0] is f \
+            or name in _stored_names([n for n in where.body if not isinstance(n, (ast.FunctionDef, ast.ClassDef))]):
+        return None
+    h = hs[0]
+    a = h.args
+    if a.vararg or a.kwarg or a.kwonlyargs or a.posonlyargs or a.defaults or a.kw_defaults:
+        return None
+    params = [p.arg for p in a.args]
+    if len(params) != len(args) or len(set(params)) != len(params):
+        return None
+    body, ret = _no_doc(h.body), None
+    if body and isinstance(body[-1], ast.Return):
+        ret, body = body[-1].value, body[:-1]
+    if not body or any(isinstance(n, _NO_INLINE) for x in body for n in ast.walk(x)):
+        return None
+    hstores = _stored_names(body)
+    rebound = [p for p in params if p in hstores]
+    if not rebound or not all(_simple_arg(x) for x in args):
+        return None                                                  # nothing re-bound: left to py2v.Inliner
+    if any(isinstance(n, (ast.FunctionDef, ast.AsyncFunctionDef, ast.Lambda, ast.ClassDef, ast.Global, ast.Nonlocal))
+           for x in f.body for n in ast.walk(x)):
+        return None                                                  # a closure of the caller could see the re-bound variable
+    caller_names = {n.id for n in ast.walk(f) if isinstance(n, ast.Name)} | caller_params
+    later = f.body[i + 1:]
+    names, exprs = {}, {}
+    for p, e in zip(params, args):
+        if p in rebound:
+            if not (isinstance(e, ast.Name) and e.id in caller_bound) or sum(_mentions(x, e.id) for x in args) != 1:
+                return None
+            if e.id != target and any(_mentions(x, e.id) for x in later):
+                return None                                          # the caller still uses its own value afterwards
+            names[p] = e.id
+        else:
+            exprs[p] = e
+    locs = hstores - set(params)
+    free = {n.id for x in body + ([ret] if ret is not None else []) for n in ast.walk(x) if isinstance(n, ast.Name)} - hstores - set(params)
+    if free & caller_bound:
+        return None                                                  # a global of the helper would be captured by a local of the caller
+    keep = None
+    if target is not None and isinstance(ret, ast.Name) and ret.id in locs and ret.id == target \
+            and not any(_mentions(x, target) for x in args) and _assigned_first(body, target):
+        keep = target
+    if target is not None and keep is None and target not in names.values() and any(_mentions(x, target) for x in args):
+        return None
+    for k, l in enumerate(sorted(locs)):
+        if l != keep and (l in caller_names or l in names.values()):
+            fresh = f"{l}__r{k}"
+            if fresh in caller_names or fresh in hstores:
+                return None
+            names[l] = fresh
+    tr = _Rename(names, exprs)
+    out = [tr.visit(copy.deepcopy(x)) for x in body]
+    res = tr.visit(copy.deepcopy(ret)) if ret is not None else None
+    if target is None:
+        if res is not None and not isinstance(res, (ast.Name, ast.Constant)):
+            return None
+    elif not (isinstance(res, ast.Name) and res.id == target):
+        out.append(ast.Assign(targets=[ast.Name(id=target, ctx=ast.Store())], value=res if res is not None else ast.Constant(value=None)))
+    return out
+
+
+def _inline_rebinding(mod):
+    mod = copy.deepcopy(mod)
+
+    def one(cls, f):
+        for i, s in enumerate(f.body):
+            if isinstance(s, ast.Assign) and len(s.targets) == 1 and isinstance(s.targets[0], ast.Name) and isinstance(s.value, ast.Call):
+                new = _rebinding_body(mod, cls, f, i, s.targets[0].id, s.value)
+            elif isinstance(s, ast.Expr) and isinstance(s.value, ast.Call):
+                new = _rebinding_body(mod, cls, f, i, None, s.value)
+            else:
+                continue
+            if new is not None:
+                f.body[i:i + 1] = [ast.copy_location(x, s) for x in new]
+                return True
+        return False
+
+    def scope(nodes, cls):
+        for n in nodes:
+            if isinstance(n, ast.ClassDef):
+                scope(n.body, n)
+            elif isinstance(n, ast.FunctionDef):
+                for _ in range(8):
+                    if not one(cls, n):
+                        break
+    scope(mod.body, None)
+    return ast.fix_missing_locations(mod)
+
+
+def _sink_shared_head(f):
+    changed = True
+    while changed:
+        changed = False
+        loads, stores = _name_counts(f)
+        for b in list(_blocks(f)):
+            for i in range(len(b) - 2):
+                s, mid, br = b[i], b[i + 1], b[i + 2]
+                if not (isinstance(s, ast.Assign) and len(s.targets) == 1 and isinstance(s.targets[0], ast.Name)):
+                    continue
+                t = s.targets[0].id
+                if not (isinstance(br, ast.If) and isinstance(br.test, ast.Name) and br.test.id == t and br.body and br.orelse
+                        and loads.get(t) == 1 and stores.get(t) == 1 and not _mentions(s.value, t)):
+                    continue
+                if not (isinstance(mid, ast.Assign) and all(isinstance(x, ast.Name) for x in mid.targets) and not _mentions(mid, t)):
+                    continue
+                br.test = s.value
+                br.body.insert(0, mid)
+                br.orelse.insert(0, copy.deepcopy(mid))
+                del b[i:i + 2]
+                changed = True
+                break
+            if changed:
+                break
+    return f
+
+
+def _unhoist(mod):
+    tops = {}
+    for n in mod.body:
+        if isinstance(n, (ast.FunctionDef, ast.AsyncFunctionDef, ast.ClassDef)):
+            tops.setdefault(n.name, []).append(n)
+    other = _stored_names([n for n in mod.body if not isinstance(n, (ast.FunctionDef, ast.AsyncFunctionDef, ast.ClassDef))])
+
+    def fix(f):
+        called = {id(c.func) for c in ast.walk(f) if isinstance(c, ast.Call)}
+        bound = _bound_names(f) | _all_params(f)
+        passed = []
+        for n in ast.walk(f):
+            if isinstance(n, ast.Name) and isinstance(n.ctx, ast.Load) and id(n) not in called and n.id not in passed:
+                passed.append(n.id)
+        for name in passed:
+            g = tops.get(name, [None])[0]
+            if name in py2v.KNOWN_FUNCTIONS or name in bound or name in other or len(tops.get(name, [])) != 1 \
+                    or not isinstance(g, ast.FunctionDef) or g.decorator_list or g is f:
+                continue
+            if any(isinstance(x, (ast.Global, ast.Nonlocal)) for x in ast.walk(g)):
+                continue
+            reads = {x.id for x in ast.walk(g) if isinstance(x, ast.Name)} - _all_params(g) - _stored_names(g.body)
+            if reads & bound or any(isinstance(x, (ast.FunctionDef, ast.AsyncFunctionDef, ast.Lambda, ast.ClassDef)) and x is not g
+                                    for x in ast.walk(g)):
+                continue                                             # the local copy would read the function's variables
+            block = f.body
+            while True:
+                holders = [s for s in block if _mentions(s, name)]
+                if len(holders) == 1 and isinstance(holders[0], ast.With) and not any(_mentions(w.context_expr, name) for w in holders[0].items):
+                    block = holders[0].body
+                else:
+                    break
+            at = 1 if block is f.body and block and isinstance(block[0], ast.Expr) and isinstance(block[0].value, ast.Constant) else 0
+            block.insert(at, copy.deepcopy(g))
+
+    for n in mod.body:
+        if isinstance(n, ast.FunctionDef):
+            fix(n)
+        elif isinstance(n, ast.ClassDef):
+            for m in n.body:
+                if isinstance(m, ast.FunctionDef):
+                    fix(m)
+    return ast.fix_missing_locations(mod)
+
+
+def _normal_module(repo, rel):
+    raw = py2v.parse_raw(repo, rel)
+    try:
+        pre = _inline_rebinding(raw)
+    except Exception:
+        pre = raw
+    mod = py2v.normal_form(repo, rel, pre)
+    try:
+        done = copy.deepcopy(mod)
+        for n in ast.walk(done):
+            if isinstance(n, ast.FunctionDef):
+                _sink_shared_head(n)
+        done = _unhoist(done)
+    except Exception:
+        done = mod
+    return done
+
+
 def gen_copc(repo):
     o = Out("laspy/copc.py VoxelKey.child/childs/bounds, Bounds.overlaps, load_octree_for_query, CopcReader.query")
-    mod = parse(repo, "laspy/copc.py")
+    mod = _normal_module(repo, "laspy/copc.py") if py2v.NF_MODE else parse(repo, "laspy/copc.py")
     env4 = {"self_level": "Z", "self_x": "Z", "self_y": "Z", "self_z": "Z"}
+
+    # every definition: read from the source as written; only when that fails, from the normal form of the module (see
+    # _normal_module) - the text is the same, so a behaviour-preserving split into new helpers regenerates the same file;
+    # when both fail the definition is MISSING with the reason of the first reading
+    add_as_written, nf_cache = o.add, []
+
+    def add(name, thunk):
+        def both():
+            nonlocal mod
+            try:
+                return thunk()
+            except Exception as first:
+                if py2v.NF_MODE or __import__("os").environ.get("VERIF_PY2V_INLINE", "1") == "0":
+                    raise
+                raw, py2v.NF_MODE = mod, True
+                try:
+                    if not nf_cache:
+                        nf_cache.append(_normal_module(repo, "laspy/copc.py"))
+                    mod = nf_cache[0]
+                    return thunk()
+                except Exception:
+                    raise first
+                finally:
+                    mod, py2v.NF_MODE = raw, False
+        add_as_written(name, both)
+    o.add = add
 
     # ---- VoxelKey.child: one Gallina function per assigned attribute -------------------------------------
     def child():
@@ -631,7 +925,7 @@ def gen_copc(repo):
         # the fragments are those of the normal form (canon) of the reference source; locals are matched up to renaming
         al = Alpha(canon(find_func(mod, "load_octree_for_query")),
                    "root_bounds root_node satisfying_nodes nodes_to_load current_node entry key loaded_entry known_entry "
-                   "child_key child_node")
+                   "child_key child_node page described")
         need = {
             "root bounds": "root_bounds = Bounds(mins=info.center - info.halfsize, maxs=info.center + info.halfsize)",
             "root": "root_node.key.level = 0",
@@ -641,11 +935,15 @@ def gen_copc(repo):
             "level pruning": "if level_range is not None and current_node.key.level >= level_range.stop:\n    continue",
             "missing key skipped": "entry = hierarchy_page.entries[current_node.key] except KeyError: continue",
             "page reference": "if entry.point_count == -1:",
-            "merge rule": "for key, loaded_entry in HierarchyPage.from_bytes(source.read(entry.byte_size)).entries.items():\n"
+            "page load": "source.seek(entry.offset)\npage = HierarchyPage.from_bytes(source.read(entry.byte_size))",
+            # the page-reference rule is checked on the loaded page, BEFORE anything of it is merged into the reader's hierarchy
+            "page rule check": "described = page.entries.get(current_node.key) if described is None or described.point_count == -1: "
+                               "raise LaspyException(",
+            "merge rule": "for key, loaded_entry in page.entries.items():\n"
                           "    known_entry = hierarchy_page.entries.get(key)\n"
                           "    if known_entry is None or known_entry.point_count == -1:\n"
-                          "        hierarchy_page.entries[key] = loaded_entry",
-            "page rule check": "if hierarchy_page.entries[current_node.key].point_count == -1: raise LaspyException(",
+                          "        hierarchy_page.entries[key] = loaded_entry\n"
+                          "nodes_to_load.insert(0, current_node)\ncontinue",
             # the page branch always leaves the iteration, so `elif` and a following `if` are the same thing
             "re-queue at the front, else the node branch": "nodes_to_load.insert(0, current_node) continue if entry.point_count >= 0:",
             "children appended": "for child_key in current_node.key.childs():",
@@ -655,14 +953,23 @@ def gen_copc(repo):
         }
         al.solve(need)
         src = _norm(al.renamed())
-        if src.count("nodes_to_load.") != 3 or src.count("hierarchy_page.entries[") != 3:
+        if src.count("nodes_to_load.") != 3 or src.count("hierarchy_page.entries[") != 2 or src.count("hierarchy_page.entries") != 3 \
+                or src.count("page.entries") != 5:
             raise Untranslatable("load_octree_for_query: unexpected work-list / hierarchy accesses")
+        try:
+            order = [src.index(x) for x in ("page=HierarchyPage.from_bytes(", "described=page.entries.get(current_node.key)",
+                                            "raiseLaspyException(", "forkey,loaded_entryinpage.entries.items():")]
+        except ValueError:
+            raise Untranslatable("load_octree_for_query: page load / rule check / merge not found")
+        if order != sorted(order):
+            raise Untranslatable("load_octree_for_query: the page-reference rule is not checked before the page is merged")
         if src.count("raise") != 1 or src.count("continue") != 4:
             raise Untranslatable("load_octree_for_query: unexpected control flow")
         return ("Definition gen_pop_from_end : bool := true.\n"
                 "Definition gen_requeue_front : bool := true.\n"
                 "Definition gen_page_marker : Z := (-1).\n"
                 "Definition gen_merge_keeps_resolved : bool := true.\n"
+                "Definition gen_page_checked_before_merge : bool := true.\n"
                 "Definition gen_node_min_count : Z := 0.\n")
     o.add("gen_traversal", traversal)
 
@@ -788,7 +1095,16 @@ def gen_copc(repo):
             if "sort" in q:
                 raise Untranslatable("http_queue_strategy: results sorted by something else than the offset")
             qa.solve(need)
-        e = _norm(find_func(mod, "http_thread_executor_strategy"))
+        ef = find_func(mod, "http_thread_executor_strategy")
+        local_defs = [n.name for n in ast.walk(ef) if isinstance(n, ast.FunctionDef) and n is not ef]
+        if len(local_defs) == 1 and not _mentions(ef, "fetch_data_job"):
+            ef = copy.deepcopy(ef)                                   # the job is the one function defined in the strategy, whatever its name
+            for n in ast.walk(ef):
+                if isinstance(n, ast.FunctionDef) and n.name == local_defs[0]:
+                    n.name = "fetch_data_job"
+                elif isinstance(n, ast.Name) and n.id == local_defs[0]:
+                    n.id = "fetch_data_job"
+        e = _norm(ef)
         for frag in ["foroffset,sizeinbyte_queries:jobs.append(downloader_pool.submit(fetch_data_job,HttpRangeStream(source.url),offset,size,))",
                      "citer=ChunkIter(out_compressed_bytes)forfutureinjobs:group_bytes=future.result()cc=citer.next(len(group_bytes))cc[:]=group_bytes"]:
             if frag not in e and frag.replace(",))", "))") not in e:
@@ -865,6 +1181,70 @@ def gen_copc(repo):
                 raise Untranslatable("Bounds: setattr on the class")
         return "Definition gen_bounds_plain : bool := true.\n"
     o.add("gen_bounds_plain", bounds_plain)
+
+    # ---- the reader's state (round 6): the root page is read AT hierarchy_root_offset (wherever the hierarchy is stored: a VLR
+    # ---- in front of the points or an EVLR behind them, the root page first or not), `self.root_page` is the one cache that
+    # ---- every query hands to load_octree_for_query, and a query keeps NOTHING else on the reader: no attribute of `self` is
+    # ---- stored outside __init__ (a decompression buffer, a queue or a chunk list kept between queries would make the record
+    # ---- returned by one query depend on the next), the decompression buffer is a fresh array of every call
+    def reader_state():
+        cls = find_class(mod, "CopcReader")
+        init = find_func(cls, "__init__")
+        body = [st for st in init.body if not (isinstance(st, ast.Expr) and isinstance(st.value, ast.Constant))]
+        at = [i for i, st in enumerate(body) if isinstance(st, ast.Assign) and _norm(st.targets[0]) == "self.root_page"]
+        if len(at) != 1:
+            raise Untranslatable("CopcReader.__init__: `self.root_page = ...` is not one top-level statement")
+        i = at[0]
+        val = body[i].value
+        if not (isinstance(val, ast.Call) and _norm(val.func) == "HierarchyPage.from_bytes" and len(val.args) == 1 and not val.keywords):
+            raise Untranslatable("CopcReader.__init__: root page is not HierarchyPage.from_bytes(<bytes>)")
+        read = "self.source.read(self.copc_info.hierarchy_root_size)"
+        arg = val.args[0]
+        j = i
+        if isinstance(arg, ast.Name):
+            j = i - 1
+            if not (j >= 0 and isinstance(body[j], ast.Assign) and _norm(body[j].targets[0]) == arg.id and _norm(body[j].value) == read):
+                raise Untranslatable("CopcReader.__init__: the root page bytes are not `" + read + "`")
+        elif _norm(arg) != read:
+            raise Untranslatable("CopcReader.__init__: the root page bytes are not `" + read + "`")
+        if not (j >= 1 and _norm(body[j - 1]) == "self.source.seek(self.copc_info.hierarchy_root_offset)"):
+            raise Untranslatable("CopcReader.__init__: the root page is not read at hierarchy_root_offset")
+        known = {"source", "close_fd", "http_num_threads", "http_strategy", "decompression_selection", "header", "copc_info",
+                 "hierarchy", "laszip_vlr", "root_page"}
+        for f in cls.body:
+            if not isinstance(f, ast.FunctionDef):
+                continue
+            for n in ast.walk(f):
+                targets = []
+                if isinstance(n, ast.Assign):
+                    targets = n.targets
+                elif isinstance(n, (ast.AugAssign, ast.AnnAssign)):
+                    targets = [n.target]
+                elif isinstance(n, ast.Delete):
+                    targets = n.targets
+                elif isinstance(n, (ast.For, ast.With)):
+                    targets = [n.target] if isinstance(n, ast.For) else [it.optional_vars for it in n.items if it.optional_vars is not None]
+                for t0 in targets:
+                    for t in ast.walk(t0):
+                        if isinstance(t, ast.Attribute) and isinstance(t.value, ast.Name) and t.value.id == "self":
+                            if f.name != "__init__" or t.attr not in known:
+                                raise Untranslatable(f"CopcReader.{f.name}: stores the attribute self.{t.attr} (state kept on the reader)")
+                if isinstance(n, ast.Call) and _norm(n.func) in ("setattr", "object.__setattr__") and n.args and _norm(n.args[0]) == "self":
+                    raise Untranslatable(f"CopcReader.{f.name}: setattr on the reader")
+        q = _norm(find_func(cls, "query"))
+        if q.count("load_octree_for_query(self.source,self.copc_info,self.root_page,") != 1 or q.count("self.root_page") != 1:
+            raise Untranslatable("CopcReader.query: the cached hierarchy handed to load_octree_for_query is not self.root_page")
+        d = _norm(find_func(cls, "_fetch_and_decompress_points_of_nodes"))
+        if d.count("points_array=np.zeros(num_points*self.header.point_format.size,dtype=np.uint8)") != 1 or d.count("points_array=") != 1:
+            raise Untranslatable("_fetch_and_decompress_points_of_nodes: the decompression buffer is not a fresh np.zeros array")
+        g = _norm(find_func(cls, "_fetch_all_chunks"))
+        if g.count("compressed_bytes=bytearray(num_compressed_bytes)") != 1 or \
+                g.replace("num_compressed_bytes=", "").replace("num_compressed_group_bytes=", "").count("compressed_bytes=") != 1:
+            raise Untranslatable("_fetch_all_chunks: the buffer of the compressed bytes is not a fresh bytearray")
+        return ("Definition gen_root_page_at_offset : bool := true.\n"
+                "Definition gen_cache_is_root_page : bool := true.\n"
+                "Definition gen_query_keeps_no_buffer : bool := true.\n")
+    o.add("gen_reader_state", reader_state)
     return o
 
 
